@@ -1531,7 +1531,24 @@ def rule_index(ctx):
     bc = [c for c in walk_no_nested(s_.node) if isinstance(c, ast.Call) and (dotted_name(c.func) or '').endswith('._broadcast_arrays')
           and len(c.args) == 2 and norm(c.args[1]) == rhs_name + '.data']
     resh = [c for c in walk_no_nested(s_.node) if isinstance(c, ast.Call) and isinstance(c.func, ast.Attribute) and c.func.attr == 'reshape' and c.args]
-    if bc:
+    # ... and the coefficient array of the right-hand side is never stored as it is: `X[...] = rhs.data` (also as a "fast path" in front of
+    # the aligned store) lets NumPy line up its (D, P) axes with whatever axes of the target happen to have the same extents
+    raw = []
+    for n_ in walk_no_nested(s_.node):
+        v_ = None
+        if isinstance(n_, ast.Assign) and any(isinstance(t_, ast.Subscript) for t_ in n_.targets):
+            v_ = n_.value
+        elif isinstance(n_, ast.Call) and isinstance(n_.func, ast.Attribute) and n_.func.attr == '__setitem__' and len(n_.args) == 2:
+            v_ = n_.args[1]
+        elif isinstance(n_, ast.Call) and (dotted_name(n_.func) or '') in ('numpy.copyto', 'numpy.put', 'numpy.place') and len(n_.args) >= 2:
+            v_ = n_.args[1]
+        if v_ is not None and norm(v_) in (rhs_name + '.data', rhs_name + '.data[...]'):
+            raw.append(n_)
+    if raw:
+        r.bad(Finding('C13.index', _f(s_), 'raw-store', '__setitem__ stores the coefficient array of a polynomial right-hand side without aligning it (`%s`): for a '
+                                                        'right-hand side of lower rank NumPy matches its (D, P) axes against trailing axes of the target whenever the '
+                                                        'extents happen to agree' % norm(raw[0])[:80], s_.file, raw[0].lineno))
+    elif bc:
         r.ok(construct='setitem:align', sample='__setitem__ aligns a polynomial right-hand side with `%s`' % norm(bc[0])[:80])
     elif resh:
         verdicts = []
@@ -2418,7 +2435,9 @@ def rule_cast_guard(ctx):
                 n += 1
                 tested = [s_ for s_ in ast.walk(iff.test) if isinstance(s_, ast.Attribute) and s_.attr == 'data' and isinstance(s_.value, ast.Name) and s_.value.id == obj]
                 if not tested:
-                    r.unknown(fi.site(iff), 'conversion of %s.data not guarded by a test of %s.data' % (obj, obj))
+                    r.bad(Finding('C08.cast-guard', _f(fi), '%s:untested:%s' % (obj, norm(iff.test)[:50]),
+                                  'UTPM.%s drops the imaginary part of `%s` (`%s`) under a test that never looks at `%s.data` (`%s`): a real spectrum does not '
+                                  'make the other array real' % (name, obj, norm(x)[:40], obj, norm(iff.test)[:60]), fi.file, iff.lineno))
                     continue
                 partial = [s_ for s_ in ast.walk(iff.test) if isinstance(s_, ast.Subscript) and isinstance(s_.value, ast.Attribute) and s_.value.attr == 'data'
                            and isinstance(s_.value.value, ast.Name) and s_.value.value.id == obj]
